@@ -292,14 +292,12 @@ def small_scope(name, level, point=False, allow_zero_cap=True):
                     for b in boxes(n, 0, 2):
                         yield {"type": name, "params": list(tup), "box": [list(x) for x in b]}
     elif t.perm:
-        for n in range(t.min_n, 4 + (level > 1) if not point else 6 + (level > 1)):
+        for n in range(t.min_n, 4 + (level > 1) if not point else 9 + (level > 1)):
             if point:
                 from itertools import permutations
 
-                if level > 1 or n <= 5:
-                    src = product(range(n), repeat=n) if n <= 5 else permutations(range(n))
-                else:
-                    src = permutations(range(n))
+                # every tuple up to 5 vertices, every permutation up to 8 (thorough: 9) vertices
+                src = product(range(n), repeat=n) if n <= 5 else permutations(range(n))
                 for tup in src:
                     yield {"type": name, "params": [], "box": [[x, x] for x in tup]}
             else:
